@@ -197,7 +197,7 @@ EvEnd ==
      /\ Check("C16", "CacheDefaultOn", (editOK /\ run.cache /\ new # {}) => (e.lock >= 0 /\ LockDominates(e.lock, w1)), e.lock)
      /\ Check("C16", "CorruptLockFallsBackToScan", (run.mode = "edit" /\ run.cache /\ run.preLock = LCorrupt) =>
                                         \A x \in Ids(new) : \A r \in RefsOf(pre) : x > r, [new |-> new])
-     /\ Check("C16", "SwitchesRespected", editOK => ~AnyMissing(post), e.exit)
+     /\ Check("C16", "SwitchesRespected", (editOK /\ ~faulted) => ~AnyMissing(post), e.exit)
      /\ Check("C16", "OutOfScopeUntouched", e.others_same, e.exit)
      /\ Check("C16", "ErrorExitChangesNothing", run.mustFail => (e.exit = 2 /\ e.snapeq), [exit |-> e.exit, snapeq |-> e.snapeq])
      (* C17 *)
